@@ -207,6 +207,9 @@ class Registry:
             return TList(self.type(ts[5:-1]))
         opt = ts.endswith("?")
         base = ts[:-1] if opt else ts
+        if opt and (base in ("int", "real", "float", "bool", "arr1", "arr2", "arr", "any") or base.startswith("list[")):
+            from .values import TOpt
+            return TOpt(self.type(base))
         if base in self.datatypes:
             return TData(self.datatypes[base], optional=opt)
         if base in self.classes:
